@@ -196,6 +196,7 @@ func (c *Ctx) ruleX2() {
 var binPairs = map[string]string{
 	"PutUvarint": "ReadUvarint|Uvarint", "PutVarint": "ReadVarint|Varint", "AppendUvarint": "ReadUvarint|Uvarint",
 	"PutUint16": "Uint16", "PutUint32": "Uint32", "PutUint64": "Uint64",
+	"AppendUint16": "Uint16", "AppendUint32": "Uint32", "AppendUint64": "Uint64", "AppendVarint": "ReadVarint|Varint",
 }
 
 func (c *Ctx) ruleX3() {
@@ -482,13 +483,28 @@ func (c *Ctx) ruleW1() {
 	// (c) Sync hands the heads to the replicator on its success path
 	syncFn := c.methodOf(st, "Sync")
 	if syncFn != nil && syncFn.Blocks != nil {
-		isLoad := func(in ssa.Instruction) bool {
-			call, ok := in.(ssa.CallInstruction)
-			if !ok || methodName(call) != "Load" {
+		isLoadCall := func(call ssa.CallInstruction) bool {
+			if methodName(call) != "Load" {
 				return false
 			}
 			r := recvOf(call)
 			return r != nil && strings.Contains(typeStr(r.Type()), "eplicator")
+		}
+		isLoad := func(in ssa.Instruction) bool {
+			call, ok := in.(ssa.CallInstruction)
+			if !ok {
+				return false
+			}
+			if isLoadCall(call) {
+				return true
+			}
+			// the hand-over may be wrapped in a function literal that is called or started here
+			if mc, ok := call.Common().Value.(*ssa.MakeClosure); ok {
+				if fn, ok := mc.Fn.(*ssa.Function); ok {
+					return c.mustDo(newKind("replicator-load", isLoadCall), fn, 1)
+				}
+			}
+			return false
 		}
 		// the only success exits allowed to skip Load are those guarded by "no heads"
 		cut := func(b *ssa.BasicBlock, si int) bool {
